@@ -59,6 +59,7 @@ def _fold(ctx, entry: GateEntry, args: List[EP]) -> Mat:
     out = ev.run(entry.factory.node, args)
     if not isinstance(out, Mat):
         raise Undecided(f"{entry.factory.qualname} does not return a matrix")
+    _fold_decorators(ctx, entry, ev, out)
     # a parameter reduced modulo a period before use: the fold ignored the reduction, which is only right if the folded
     # table really has that period (M(p + P) = M(p) identically); otherwise values outside the principal range get a
     # different matrix than the closed form (e.g. a sign for half-angle gates), which breaks additivity
@@ -71,6 +72,57 @@ def _fold(ctx, entry: GateEntry, args: List[EP]) -> Mat:
         where = f"{entry.factory.module.relpath}:{entry.factory.node.lineno}"
         ctx.check(diff is None, "C02-D6 group-law", f"{entry.factory.key}:reduction:{pname}", f"{entry.ident}: `{pname}` is reduced modulo {period!r} and the matrix has that period", f"{entry.ident}: `{pname}` is reduced modulo {period!r} before the matrix is built, but the closed form does not have that period: M({pname} + P)[{diff[0]}][{diff[1]}] = {diff[2]!r} vs {diff[3]!r}; angles outside the principal range give a different gate, so angle a followed by angle b is no longer angle a+b" if diff else "", where)
     return out
+
+
+def _fold_decorators(ctx, entry: GateEntry, ev: Evaluator, out: Mat) -> None:
+    """A decorated factory is the decorator's wrapper, not the closed form below it. The one shape decided here: the decorator
+    returns an inner function that answers special parameter values (``if p == c: return E``) and otherwise calls the factory with
+    its own parameters. Each special answer must be the closed form at that value (same shape, same entries); anything else about
+    a decorator is outside the fragment (UNDECIDED, never a silent pass)."""
+    from ..exppoly import _num
+
+    f = entry.factory
+    decos = [d for d in f.node.decorator_list]
+    if not decos:
+        return
+    mod = f.module
+    names = positional_params(f.node)
+    for deco in decos:
+        r = ctx.repo.resolve_dotted(mod, deco) if isinstance(deco, (ast.Name, ast.Attribute)) else None
+        if r is None or r[0] != "func":
+            raise Undecided(f"{f.qualname} is decorated with {short(deco)}, which is not a function of the repository")
+        D = r[1].node
+        dps = positional_params(D)
+        body = [s_ for s_ in D.body if not (isinstance(s_, ast.Expr) and isinstance(s_.value, ast.Constant))]
+        if not (len(dps) == 1 and len(body) == 2 and isinstance(body[0], ast.FunctionDef) and isinstance(body[1], ast.Return) and isinstance(body[1].value, ast.Name) and body[1].value.id == body[0].name):
+            raise Undecided(f"decorator {D.name} of {f.qualname} is not `def inner(...): ...; return inner`")
+        inner = body[0]
+        ips = positional_params(inner)
+        if len(ips) != len(names) or inner.args.vararg or inner.args.kwarg:
+            raise Undecided(f"wrapper {inner.name} of decorator {D.name} does not take the factory's parameters")
+        ibody = [s_ for s_ in inner.body if not (isinstance(s_, ast.Expr) and isinstance(s_.value, ast.Constant))]
+        last = ibody[-1] if ibody else None
+        if not (isinstance(last, ast.Return) and isinstance(last.value, ast.Call) and norm(last.value.func) == dps[0] and [norm(a) for a in last.value.args] == ips and not last.value.keywords):
+            raise Undecided(f"wrapper {inner.name} does not end in `return {dps[0]}({', '.join(ips)})`")
+        env = {ip: EP.var(nm) for ip, nm in zip(ips, names)}
+        for st in ibody[:-1]:
+            t = st.test if isinstance(st, ast.If) else None
+            ok_case = isinstance(st, ast.If) and not st.orelse and len(st.body) == 1 and isinstance(st.body[0], ast.Return) and isinstance(t, ast.Compare) and len(t.ops) == 1 and isinstance(t.ops[0], ast.Eq) and isinstance(t.left, ast.Name) and t.left.id in ips and isinstance(t.comparators[0], ast.Constant) and isinstance(t.comparators[0].value, (int, float))
+            if not ok_case:
+                raise Undecided(f"statement outside the special-case fragment in wrapper {inner.name}: {short(st, 80)}")
+            pname = names[ips.index(t.left.id)]
+            cval = EP.const(_num(t.comparators[0].value))
+            special = ev.ev(st.body[0].value, dict(env))
+            want = out.subst({pname: cval})
+            where = f"{mod.relpath}:{st.lineno}"
+            construct = f"{f.key}:special-case:{D.name}:{short(t, 30)}"
+            if not isinstance(special, Mat):
+                raise Undecided(f"special case of wrapper {inner.name} does not return a matrix")
+            if special.shape != want.shape:
+                ctx.violation(R2, construct, f"{entry.ident}: the decorator {D.name} answers `{short(t)}` with {short(st.body[0].value)}, a {special.shape[0]}x{special.shape[1]} matrix, but the gate's matrix is {want.shape[0]}x{want.shape[1]}: at that parameter value the gate has the wrong dimension", where)
+                continue
+            diff = special.first_difference(want)
+            ctx.check(diff is None, R7, construct, f"{entry.ident}: the special answer of {D.name} for `{short(t)}` is the closed form at that value", f"{entry.ident}: the decorator {D.name} answers `{short(t)}` with {short(st.body[0].value)}, but the closed form there has [{diff[0]}][{diff[1]}] = {diff[3]!r} (special answer: {diff[2]!r})" if diff else "", where)
 
 
 def _param_vars(entry: GateEntry) -> List[str]:
